@@ -48,7 +48,7 @@ def plan(tier, seed):
 def mandatory_bins(tier):
     b = ["blocks_" + "+".join(l) for l in GB.all_block_lists()]
     b += ["session_key_drawn", "all_blocks_wrap_the_mac_key", "pass_through_rewrite", "rewrite_known_blocks_same_key", "creations_without_key", "counting_rng",
-          "ecc_wrap", "ecc_rewrite_same_object", "ephemeral_points_distinct", "splice_accepted_when_keys_equal", "splice_body_under_first_key", "splice_body_under_second_key", "splice_triple", "splice_partial_decryptor_set", "splice_unopened_block_between"]
+          "ecc_wrap", "ecc_rewrite_same_object", "ephemeral_points_distinct", "splice_accepted_when_keys_equal", "splice_body_under_first_key", "splice_body_under_second_key", "splice_triple", "splice_partial_decryptor_set", "splice_unopened_block_between", "read_with_encrypt_only_ecc_encryptor", "content_of_a_read_file_rewritten_under_a_fresh_key", "encrypted_component_under_the_wrapped_key"]
     b += ["splice_%s_%s" % (a, c) for a in GB.KINDS for c in GB.KINDS if a != c]
     return b
 
@@ -78,7 +78,7 @@ class Hooks:
         self.rec1.remove()
 
 
-def open_all(ctx, specs, binary, rp, expect_key=None):
+def open_all(ctx, specs, binary, rp, expect_key=None, model_comps=None):
     """unwrap every block of a written binary with the independent models; verify the
     directory MACs under that key. returns the common key or None"""
     try:
@@ -99,10 +99,23 @@ def open_all(ctx, specs, binary, rp, expect_key=None):
         return None
     key = keys[0]
     try:
-        L.parse_body(binary, pos, key, True)
+        ents = L.parse_body(binary, pos, key, True)
     except L.LayoutError as e:
         ctx.violation("wrapped_key_does_not_authenticate_the_directory:" + e.rule, {"key": key}, rp)
         return None
+    if model_comps is not None:
+        # ... and is the key the encrypted components are stored under
+        try:
+            content = L.content_of(ents, key)
+        except L.LayoutError as e:
+            ctx.violation("wrapped_key_does_not_decrypt_the_components:" + e.rule, {}, rp)
+            return None
+        for (d, blob, declared, enc), mc in zip(content, model_comps):
+            if mc.encrypted:
+                ctx.bin("encrypted_component_under_the_wrapped_key")
+                if blob[: mc.declared] != mc.blob[: mc.declared]:
+                    ctx.violation("wrapped_key_does_not_decrypt_the_components", {"got": blob[:32], "expected": mc.blob[:32]}, rp)
+                    return None
     if expect_key is not None and key != expect_key:
         ctx.violation("blocks_wrap_a_key_other_than_the_files_session_key", {"wrapped": key, "session_key": expect_key}, rp)
         return None
@@ -122,6 +135,11 @@ def run_wrap(ns, ctx, spec):
             kinds = lists[idx % len(lists)]
             specs = GB.gen_blocks(rng, kinds)
             case = G.gen_case(rng, ncomp=rng.choice((0, 1, 2)))
+            if idx % 2 == 0:
+                from ..refs.layout import MComp
+
+                secret = rng.randbytes(rng.choice((5, 16, 33)))
+                case.comps.append(MComp([(0xC3, b"\x03"), (0xC2, b"\x02"), (0xC1, b"\x03"), (0xC5, b"\x01")], secret, len(secret), True))
             rp = {"kind": "wrap", "blocks": GB.spec_json(specs), "case": case.to_json()}
             ctx.bin("blocks_" + "+".join(kinds))
             ctx.ev()
@@ -144,7 +162,7 @@ def run_wrap(ns, ctx, spec):
                 ctx.bin("ecc_wrap")
                 if len(hooks.gens) - g0 != necc:
                     ctx.violation("ecc_wrap_without_fresh_key_generation", {"generate_calls": len(hooks.gens) - g0, "ecc_blocks": necc}, rp)
-            if open_all(ctx, specs, binary, rp, key) is None:
+            if open_all(ctx, specs, binary, rp, key, case.comps) is None:
                 continue
             if necc:
                 blocks, _ = L.parse_bec2_header(binary)
@@ -174,14 +192,24 @@ def run_wrap(ns, ctx, spec):
             subsets = [frozenset(i for i in range(n) if m >> i & 1) for m in range(1, 1 << n)]
             subset = subsets[idx // len(lists) % len(subsets)]
             text = L.text_of(case.comments, binary)
+            renc = GB.read_encryptors(ns, specs, subset)
+            pubonly = []
+            if idx % 3 != 2:
+                # an encrypt-only EccEncryptor (public key only) for an unopened ECC block is NOT a matching decryptor:
+                # the block must still be kept byte for byte
+                for i2, s2 in enumerate(specs):
+                    if s2["kind"] == "ecc" and i2 not in subset:
+                        pubonly.append(B.EccEncryptor(s2["sel"], GB.private_key_obj(ns, s2["priv"]).public_key))
+                        ctx.bin("read_with_encrypt_only_ecc_encryptor")
+            renc = pubonly + renc
             try:
-                back = B.Bec2File.read_file(io.StringIO(text), GB.read_encryptors(ns, specs, subset), True)
+                back = B.Bec2File.read_file(io.StringIO(text), renc, True)
             except Exception as e:
                 ctx.violation("reader_rejects_file_written_by_writer", {"exc": fmt_exc(e), "subset": sorted(subset)}, rp)
                 continue
             try:
                 known = [s for i, s in enumerate(specs) if i in subset]
-                binary3 = back.to_binary(GB.write_encryptors(ns, known))
+                binary3 = back.to_binary(pubonly + GB.write_encryptors(ns, known))
             except Exception as e:
                 ctx.violation("rewrite_raises", {"exc": fmt_exc(e), "subset": sorted(subset)}, rp)
                 continue
@@ -217,6 +245,20 @@ def run_wrap(ns, ctx, spec):
                     L.parse_body(binary3, pos3, key, True)
                 except L.LayoutError as e:
                     ctx.violation("rewritten_body_not_authentic_under_the_session_key:" + e.rule, {}, rp)
+            # ---- the content that was read is put into a NEW file with a fresh key: everything must be under that key ----
+            if ok and len(subset) == len(specs):
+                g0 = len(hooks.draws)
+                f2 = B.Bec2File(back.bf3file, list(back.auth_blocks.values()))
+                key2 = bytes(f2.session_key)
+                ctx.bin("content_of_a_read_file_rewritten_under_a_fresh_key")
+                try:
+                    binary4 = f2.to_binary(GB.write_encryptors(ns, specs))
+                except Exception as e:
+                    ctx.violation("rewrite_under_fresh_key_raises", {"exc": fmt_exc(e)}, rp)
+                    continue
+                if key2 == key or len(hooks.draws) != g0 + 1:
+                    ctx.violation("session_key_is_not_a_fresh_16_byte_draw_of_the_registered_rng", {"reused_key_of_read_file": key2 == key}, rp)
+                open_all(ctx, specs, binary4, rp, key2, case.comps)
             if j == 0:
                 ctx.sample({"kind": "wrap", "blocks": [s["kind"] for s in specs], "drawn_key": key, "reread_with": sorted(subset)})
         if eph_seen:
